@@ -286,12 +286,14 @@ Proof.
   destruct (fold_cleanup_fields tbl (normal s) (join_workers s1)) as (_ & _ & _ & _ & t3 & x3 & f3).
   destruct (fold_cleanup_fields tbl (late s) s3) as (_ & _ & _ & _ & t4 & x4 & f4).
   fold s1 in t1, x1, f1. fold s3 in t3, x3, f3. fold s4 in t4, x4, f4. cbv zeta. simpl.
-  repeat split.
-  - rewrite t4, t3. reflexivity.
-  - unfold s4, s3, s1. rewrite (fold_cleanup_ran _ _ _ Vl), (fold_cleanup_ran _ _ _ Vn). simpl.
-    rewrite (fold_cleanup_ran _ _ _ Ve). simpl. unfold regs. rewrite app_assoc. reflexivity.
-  - rewrite x4, x3. simpl. rewrite x1. reflexivity.
-  - rewrite f4, f3. simpl. rewrite f1. reflexivity.
+  split; [reflexivity|]. split; [reflexivity|]. split; [reflexivity|]. split; [reflexivity|]. split; [reflexivity|].
+  split; [rewrite t4, t3; reflexivity|].
+  split.
+  { unfold s4, s3, s1. rewrite (fold_cleanup_ran _ _ _ Vl), (fold_cleanup_ran _ _ _ Vn). simpl.
+    rewrite (fold_cleanup_ran _ _ _ Ve). simpl. unfold regs. rewrite app_assoc. reflexivity. }
+  split; [rewrite x4, x3; simpl; rewrite x1; reflexivity|].
+  split; [rewrite f4, f3; simpl; rewrite f1; reflexivity|].
+  intros j. split.
   - intros HH. apply In_del in HH. destruct HH as [HH Hc]. unfold s4 in HH. apply (fold_cleanup_ledger _ _ _ _ Vl) in HH.
     destruct HH as [HH Hl]. unfold s3 in HH. apply (fold_cleanup_ledger _ _ _ _ Vn) in HH. destruct HH as [HH Hn]. simpl in HH.
     unfold s1 in HH. apply (fold_cleanup_ledger _ _ _ _ Ve) in HH. destruct HH as [HH He]. simpl in HH.
